@@ -134,7 +134,7 @@ func c02BinaryPrice() vh.Unit {
 		cases := []struct {
 			flag string
 			wei  int64 // per minute
-		}{{"", 100e9}, {"3 gwei", 3e9}, {"7000", 7000}, {"0.5 gwei", 5e8}, {"2 szabo", 2e12}}
+		}{{"", 100e9}, {"3 gwei", 3e9}, {"7000", 7000}, {"0.5 gwei", 5e8}, {"2 szabo", 2e12}, {"4 microether", 4e12}, {"3 milliether", 3e15}, {"5 finney", 5e15}, {"6 mwei", 6e6}, {"0.001 ether", 1e15}}
 		for _, tc := range cases {
 			args := []string{"--store=memory"}
 			if tc.flag != "" {
@@ -330,5 +330,104 @@ func c08BinaryMaxHosts() vh.Unit {
 			}
 		}
 		u.Sample("real binary with --max-request-hosts absent/0/1/2/5, 3 acknowledging hosts, requests for 1/2/3/10")
+	}}
+}
+
+// C03 at the binary, magnitudes: every unit name `--contract.min-balance` accepts. The price is
+// given in bare wei (no unit parsing involved) as one unit per second; after two keep-alives 1.5 s
+// apart a client has spent between 1.5 and (measured upper bound) units: with a minimum of
+// "-10 <unit>" it must still be served (judged only if the upper bound stayed below 10 s), with
+// "-1 <unit>" it must have been cut off (the lower bound alone decides).
+func c03BinaryMinBalanceUnits() vh.Unit {
+	return vh.Unit{Name: "wire/binary-min-balance-units", Run: func(u *vh.U) {
+		ids := vh.Identities()
+		client, host := ids[0], ids[1]
+		units := []struct {
+			name string
+			wei  *big.Int
+		}{{"kwei", big.NewInt(1e3)}, {"babbage", big.NewInt(1e3)}, {"mwei", big.NewInt(1e6)}, {"lovelace", big.NewInt(1e6)}, {"gwei", big.NewInt(1e9)}, {"shannon", big.NewInt(1e9)},
+			{"szabo", big.NewInt(1e12)}, {"microether", big.NewInt(1e12)}, {"finney", big.NewInt(1e15)}, {"milliether", big.NewInt(1e15)}, {"ether", big.NewInt(1e18)}, {"eth", big.NewInt(1e18)}}
+		type outcome struct {
+			desc, violation, detail, infra string
+			observed                       string
+		}
+		type job struct {
+			unit  int
+			scale int // minimum = -scale units
+		}
+		var jobs []job
+		for i := range units {
+			jobs = append(jobs, job{i, 10}, job{i, 1})
+		}
+		results := make([]outcome, len(jobs))
+		sem := make(chan struct{}, 6)
+		done := make(chan int, len(jobs))
+		for ji, j := range jobs {
+			go func(ji int, j job) {
+				sem <- struct{}{}
+				defer func() { <-sem; done <- ji }()
+				un := units[j.unit]
+				price := new(big.Int).Mul(un.wei, big.NewInt(60)) // per minute = one unit per second
+				min := fmt.Sprintf("-%d %s", j.scale, un.name)
+				o := &results[ji]
+				o.desc = fmt.Sprintf("vipnode pool --contract.price=%s (one %s per second, in bare wei) --contract.min-balance=%q", price, un.name, min)
+				s, err := newBinSession("--store=memory", "--contract.price="+price.String(), "--contract.min-balance="+min)
+				if err != nil {
+					o.infra = err.Error()
+					return
+				}
+				defer s.close()
+				if r, _, _, err := s.hostCall(host, vh.NewCall("vipnode_connect", host, vh.WireNonce(), pool2ConnectHost())); err != nil || r.Code() != 0 {
+					o.violation, o.detail = "wire/session-step-failed", fmt.Sprintf("host registers: %v %+v", err, r)
+					return
+				}
+				r, tConn, _, err := s.clientCall(vh.NewCall("vipnode_connect", client, vh.WireNonce(), vh.DefaultParam("vipnode_connect", "")))
+				if err != nil || r.Code() != 0 {
+					o.violation, o.detail = "wire/client-refused-above-negative-minimum", fmt.Sprintf("a client with balance 0 was refused at connect: %v %+v", err, r)
+					return
+				}
+				upd := func() vh.Call {
+					return vh.NewCall("vipnode_update", client, vh.WireNonce(), vh.DefaultParam("vipnode_update", host.NodeID))
+				}
+				r1, _, t1r, err := s.clientCall(upd())
+				if err != nil {
+					o.infra = err.Error()
+					return
+				}
+				_ = r1
+				time.Sleep(1500 * time.Millisecond)
+				r2, t2s, t2r, err := s.clientCall(upd())
+				if err != nil {
+					o.infra = err.Error()
+					return
+				}
+				lo, hi := t2s.Sub(t1r), t2r.Sub(tConn)
+				served := r2.Code() == 0
+				o.observed = fmt.Sprintf("%s scale %d served=%v", un.name, j.scale, served)
+				switch {
+				case j.scale == 1 && served:
+					o.violation, o.detail = "wire/client-below-minimum-served", fmt.Sprintf("at least %s of peering were billed (>= 1.5 %s spent), yet the keep-alive was served", lo, un.name)
+				case j.scale == 10 && !served && hi < 9*time.Second:
+					o.violation, o.detail = "wire/client-above-minimum-cut-off", fmt.Sprintf("at most %s of peering can have been billed (< 9 %s spent), yet the keep-alive was refused: %+v", hi, un.name, r2.Error)
+				case j.scale == 10 && !served:
+					o.observed += " (inconclusive: slow machine)"
+				}
+			}(ji, j)
+		}
+		for range jobs {
+			<-done
+		}
+		for _, o := range results {
+			wireStep(u)
+			if o.infra != "" {
+				u.R.Infra = o.infra
+				return
+			}
+			u.Observe(o.observed)
+			if o.violation != "" {
+				u.Violate(o.violation, o.desc+": "+o.detail, nil)
+			}
+		}
+		u.Sample("real binary: 12 unit names x minimum of -10 / -1 units, price one unit per second given in bare wei")
 	}}
 }
